@@ -83,7 +83,7 @@ func runPlaceSuite(seed uint64, n int, out *Out, stats *Stats) {
 		r := NewRng(seed*122949829 + uint64(i))
 		set := pickSettings(r)
 		set.Limit = 1440
-		set.Timeout = 200 * time.Millisecond
+		set.Timeout = 2 * time.Second
 		w := &World{r: r, set: set, stats: stats, mode: "honest"}
 		for k := 0; k < 5; k++ {
 			w.wallets = append(w.wallets, NewWallet(k))
